@@ -2086,7 +2086,8 @@ class TargetRegistry:
                     else:
                         ret = type_map[closest]
 
-            self._type_cache[cache_key] = ret
+            if ret is not False or not raise_exc:  # (as before: a lookup that raises is not memoised)
+                self._type_cache[cache_key] = ret
         else:
             ret = self._type_cache[cache_key]
 
